@@ -107,6 +107,139 @@ func displayPath(p string) string {
 // the factory call (root token -> the caller's path). Empty otherwise.
 var pathAlias = map[string]string{}
 
+// fieldAlias: fields of a local struct value that were initialised once, in its composite literal,
+// from an access path and never assigned again in the function (`v := &visitor{m: m}`): the path
+// "v@pos.m" stands for the path of the initialiser. This is how the state a closure captured looks
+// after the closure was turned into a struct with a method. Set per analysed function.
+var fieldAlias = map[string]string{}
+
+// canonPath rewrites the longest aliased prefix of an access path (repeatedly).
+func canonPath(p string) string {
+	if len(fieldAlias) == 0 {
+		return p
+	}
+	for n := 0; n < 8; n++ {
+		best := ""
+		for k := range fieldAlias {
+			if len(k) > len(best) && (p == k || strings.HasPrefix(p, k+".")) {
+				best = k
+			}
+		}
+		if best == "" {
+			return p
+		}
+		p = fieldAlias[best] + p[len(best):]
+	}
+	return p
+}
+
+// computeFieldAliases: see fieldAlias.
+func computeFieldAliases(info *types.Info, body *ast.BlockStmt) map[string]string {
+	out := map[string]string{}
+	if body == nil {
+		return out
+	}
+	type cand struct {
+		v   types.Object
+		lit *ast.CompositeLit
+	}
+	var cands []cand
+	assigned := map[types.Object]int{}
+	fieldWritten := map[string]bool{} // "v@pos.f"
+	tokOf := func(o types.Object) string { return fmt.Sprintf("%s@%d", o.Name(), o.Pos()) }
+	litOf := func(e ast.Expr) *ast.CompositeLit {
+		e = ast.Unparen(e)
+		if u, ok := e.(*ast.UnaryExpr); ok && u.Op == token.AND {
+			e = ast.Unparen(u.X)
+		}
+		cl, _ := e.(*ast.CompositeLit)
+		return cl
+	}
+	ast.Inspect(body, func(n ast.Node) bool {
+		switch x := n.(type) {
+		case *ast.AssignStmt:
+			for i, l := range x.Lhs {
+				if id, ok := ast.Unparen(l).(*ast.Ident); ok {
+					o := info.Defs[id]
+					if o == nil {
+						o = info.Uses[id]
+					}
+					if o != nil {
+						assigned[o]++
+						if len(x.Lhs) == len(x.Rhs) {
+							if cl := litOf(x.Rhs[i]); cl != nil {
+								cands = append(cands, cand{o, cl})
+							}
+						}
+					}
+				}
+				if se, ok := ast.Unparen(l).(*ast.SelectorExpr); ok {
+					if o := rootObj(info, se.X); o != nil {
+						if sel := info.Selections[se]; sel != nil && sel.Kind() == types.FieldVal {
+							fieldWritten[tokOf(o)+"."+sel.Obj().Name()] = true
+						}
+					}
+				}
+			}
+		case *ast.ValueSpec:
+			for i, id := range x.Names {
+				if o := info.Defs[id]; o != nil {
+					assigned[o]++
+					if i < len(x.Values) {
+						if cl := litOf(x.Values[i]); cl != nil {
+							cands = append(cands, cand{o, cl})
+						}
+					}
+				}
+			}
+		case *ast.IncDecStmt:
+			if se, ok := ast.Unparen(x.X).(*ast.SelectorExpr); ok {
+				if o := rootObj(info, se.X); o != nil {
+					fieldWritten[tokOf(o)+"."+se.Sel.Name] = true
+				}
+			}
+		case *ast.UnaryExpr:
+			// &v.f: the field may be written through the pointer
+			if x.Op == token.AND {
+				if se, ok := ast.Unparen(x.X).(*ast.SelectorExpr); ok {
+					if o := rootObj(info, se.X); o != nil {
+						fieldWritten[tokOf(o)+"."+se.Sel.Name] = true
+					}
+				}
+			}
+		}
+		return true
+	})
+	for _, c := range cands {
+		if assigned[c.v] != 1 {
+			continue
+		}
+		for _, el := range c.lit.Elts {
+			kv, ok := el.(*ast.KeyValueExpr)
+			if !ok {
+				continue
+			}
+			kid, ok := kv.Key.(*ast.Ident)
+			if !ok {
+				continue
+			}
+			k := tokOf(c.v) + "." + kid.Name
+			if fieldWritten[k] {
+				continue
+			}
+			// the initialiser: an access path rooted in a variable that is assigned at most once
+			ro := rootObj(info, kv.Value)
+			if ro == nil || assigned[ro] > 1 {
+				continue
+			}
+			if pth, okp := pathOf(info, kv.Value); okp {
+				out[k] = pth
+			}
+		}
+	}
+	return out
+}
+
 // pathOf renders an expression as an access path "root@pos.f.g", following implicit
 // embedded fields. ok=false if the expression is not a pure path.
 func pathOf(info *types.Info, e ast.Expr) (string, bool) {
@@ -149,7 +282,7 @@ func pathOf(info *types.Info, e ast.Expr) (string, bool) {
 		if !ok {
 			return "", false
 		}
-		return base + embeddedChain(sel, len(sel.Index())-1) + "." + sel.Obj().Name(), true
+		return canonPath(base + embeddedChain(sel, len(sel.Index())-1) + "." + sel.Obj().Name()), true
 	}
 	return "", false
 }
